@@ -102,6 +102,8 @@ Fixpoint split_at (c : N) (l : list N) : option (list N * list N) :=
                    end
   end.
 
+(* DNaN: Decimal.SetString returns an error (the decimal is then left in NaN form, or Finite with
+   a stale exponent; since NumInfo.decimal returns that error the remains are never observed) *)
 Inductive dform := DFin (d : dec) | DNaN.
 
 Definition max_exponent : Z := 100000.
@@ -124,13 +126,16 @@ Definition parse_int32 (s : list N) : option Z :=
   end.
 
 (* Decimal.setExponent(c, unknownNumDigits, 0, xs...) as far as BaseContext reaches:
-   on an out-of-range exponent the Exponent field keeps its value (0). *)
-Definition set_exponent (c : N) (xs : list Z) : Z :=
+   None = a SystemOverflow/SystemUnderflow condition, which setString turns into an error
+   without condition.  (SetString then rounds at precision 0, i.e. calls setExponent once more
+   on the summed exponent; that call can only fail with a condition, leaves the decimal as
+   written, and NumInfo.decimal ignores it: e.g. 1.5e-100000.) *)
+Definition set_exponent (c : N) (xs : list Z) : option Z :=
   if forallb (fun x => (x <=? max_exponent) && (- max_exponent <=? x))%Z xs then
     let sum := fold_left Z.add xs 0%Z in
     let adj := (sum + Z.of_N (digits c) - 1)%Z in
-    if ((max_exponent <? adj) || (adj <? - max_exponent))%Z then 0%Z else sum
-  else 0%Z.
+    if ((max_exponent <? adj) || (adj <? - max_exponent))%Z then None else Some sum
+  else None.
 
 Definition starts_with_sign (s : list N) : bool :=
   match s with
@@ -169,19 +174,24 @@ Definition set_string (b : list N) : dform :=
         | [] => DNaN                         (* big.Int.SetString("") fails *)
         | _ =>
           let c := digits_value 10 ds 0 in
-          DFin (mkDec ng c (set_exponent c exps2))
+          match set_exponent c exps2 with
+          | Some e => DFin (mkDec ng c e)
+          | None => DNaN                     (* exponent out of range *)
+          end
         end.
 
 (* ---- NumInfo.decimal --------------------------------------------------- *)
 
 Inductive lit_result :=
 | LErr                       (* an error is returned *)
-| LNaN (k : kind)            (* no error, but the decimal is left in NaN form *)
+| LNaN (k : kind)            (* no error, but the decimal is left in NaN form (unreachable since
+                                UnmarshalText errors are returned: NumLitProofs.lit_parse_never_nan) *)
 | LNum (n : num).
 
 Definition kind_of_float (f : bool) : kind := if f then KFloat else KInt.
 
-(* returns the decimal, or None for "number cannot be represented as int" *)
+(* returns the decimal, or None when an error is returned: apd cannot read the number
+   (exponent out of range), or "number cannot be represented as int" *)
 Definition decimal_of (i : numinfo) : option dform :=
   if negb (i_base i =? 10) then
     let '(ng, b) :=
@@ -191,9 +201,11 @@ Definition decimal_of (i : numinfo) : option dform :=
       end in
     Some (DFin (mkDec ng (digits_value (i_base i) b 0) 0))
   else
-    match set_string (i_buf i), i_mul i with
-    | f, None => Some f
-    | DNaN, Some _ => Some DNaN              (* Mul and RoundToIntegralExact propagate NaN *)
+    (* buf := p.buf; if len(buf) == 0 { buf = "0" };
+       if _, cond, err := v.SetString(string(buf)); err != nil && cond == 0 { return an error } *)
+    match set_string (match i_buf i with [] => [c_0] | b => b end), i_mul i with
+    | DNaN, _ => None
+    | DFin v, None => Some (DFin v)
     | DFin v, Some m =>
       let p := dmul v (mkDec false (mult_value m) 0) in
       let '(r, inexact) := to_integral_flag p in
